@@ -26,7 +26,7 @@ ASSUMPTIONS = ["Redis / RabbitMQ replaced by in-process models (part A thorough;
 
 ACTIONS = ["ack", "nack", "reject", "reschedule", "retry", "force_retry"]
 CATS = ["NORMAL", "DELAYED", "DEAD"]
-RETRY_STATES = {"left": (1, 0), "spent": (1, 1), "none": (0, 0)}
+RETRY_STATES = {"left": (1, 0), "spent": (1, 1), "none": (0, 0), "over": (1, 2)}  # over: above the budget after forced retries
 PRE = ["cb0", "cb1", "sr", "se"]
 
 
